@@ -104,3 +104,8 @@ static inline u1 ir2c_ptr_in_range(const u8 *p, const u8 *b, u64 len) { if (!__C
 #else
 static inline u1 ir2c_ptr_in_range(const u8 *p, const u8 *b, u64 len) { return (u1)(p >= b && p <= b + len); }
 #endif
+/* field-name hashing: names are job constants, any deterministic function serves (the hash decides bucket placement only; iteration order is insertion order) */
+#ifndef IR2C_HASH32_DEFINED
+#define IR2C_HASH32_DEFINED
+static inline u32 ir2c_hash32(u8 *p, u64 n, u32 seed) { u32 h = seed; for (u64 i = 0; i < n; i++) h = h * 31u + p[i]; return h; }
+#endif
